@@ -235,6 +235,20 @@ impl<'tcx> Cx<'tcx> {
         s
     }
 
+    /// does a value of this type contain a workspace ADT or a function pointer / item (through references, arrays, slices, tuples)?
+    fn structured_const_ty(&self, ty: Ty<'tcx>, depth: usize) -> bool {
+        if depth > 6 {
+            return false;
+        }
+        match ty.kind() {
+            ty::Ref(_, t, _) | ty::Array(t, _) | ty::Slice(t) => self.structured_const_ty(*t, depth + 1),
+            ty::Tuple(ts) => ts.iter().any(|t| self.structured_const_ty(t, depth + 1)),
+            ty::FnPtr(..) | ty::FnDef(..) => true,
+            ty::Adt(def, _) => self.ws.contains(&self.tcx.crate_name(def.did().krate).to_string()),
+            _ => false,
+        }
+    }
+
     fn operand(&self, i: Instance<'tcx>, body: &Body<'tcx>, o: &Operand<'tcx>) -> String {
         match o {
             Operand::Copy(p) => format!("{{\"k\":\"copy\",\"pl\":{}}}", self.place(i, body, p)),
@@ -248,6 +262,16 @@ impl<'tcx> Cx<'tcx> {
                         let _ = write!(extra, ",\"promoted\":{}", p.as_usize());
                     } else {
                         let _ = write!(extra, ",\"item\":{}", esc(&self.tcx.def_path_str(uv.def)));
+                        // a constant table / struct / array over workspace types or function pointers: its initialiser body is
+                        // dumped like a function instance so that the analysis sees the aggregate, not a printed value
+                        if self.structured_const_ty(ty, 0) {
+                            if let Ok(Some(ci)) = Instance::try_resolve(self.tcx, self.env, uv.def, uv.args) {
+                                if matches!(ci.def, ty::InstanceKind::Item(_)) && (ci.def_id().is_local() || self.tcx.is_mir_available(ci.def_id())) {
+                                    let _ = write!(extra, ",\"cbody\":{}", esc(&self.inst_key(ci)));
+                                    self.pending.borrow_mut().push(ci);
+                                }
+                            }
+                        }
                     }
                 }
                 if let ty::FnDef(d, a) = ty.kind() {
@@ -367,7 +391,8 @@ impl<'tcx> Cx<'tcx> {
             let target = key.rsplit(" as core::convert::Into<").next().unwrap_or("");
             let lib = ["soroban_sdk::", "core::", "alloc::", "std::", "alloy_", "ruint::", "stellar_", "u8", "u16", "u32", "u64", "u128", "usize",
                        "i8", "i16", "i32", "i64", "i128", "isize", "bool", "(", "[", "&"];
-            if !lib.iter().any(|p| target.starts_with(p)) {
+            let ws_from = !lib.iter().any(|p| target.starts_with(p));
+            if ws_from {
                 if let ty::InstanceKind::Item(d) = ci.def {
                     if self.tcx.is_mir_available(d) {
                         return true;
@@ -519,6 +544,28 @@ impl<'tcx> Cx<'tcx> {
                     let mut closure_call = false;
                     let mut self_adt = String::new();
                     let mut closure_keys: Vec<String> = vec![];
+                    let mut ctor = String::from("null");
+                    if let ty::FnDef(cd, _) = fty.kind() {
+                        // a tuple-struct / tuple-variant constructor used as a function (`map_or(Ok(()), Err)`, `.map(Some)`): the call IS the aggregate
+                        if let DefKind::Ctor(..) = self.tcx.def_kind(*cd) {
+                            let parent = self.tcx.parent(*cd);
+                            let (adt_did, vdid) = if matches!(self.tcx.def_kind(parent), DefKind::Variant) { (self.tcx.parent(parent), parent) } else { (parent, parent) };
+                            if matches!(self.tcx.def_kind(adt_did), DefKind::Struct | DefKind::Enum) {
+                                let adt = self.tcx.adt_def(adt_did);
+                                if let Some((vi, var)) = adt.variants().iter_enumerated().find(|(_, v)| v.def_id == vdid || adt.is_struct()) {
+                                    let fields: Vec<String> = var.fields.iter().map(|f| esc(&f.name.to_string())).collect();
+                                    ctor = format!(
+                                        "{{\"adt\":{},\"variant\":{},\"vidx\":{},\"fields\":[{}],\"is_enum\":{}}}",
+                                        esc(&self.tcx.def_path_str(adt_did)),
+                                        esc(&var.name.to_string()),
+                                        vi.as_usize(),
+                                        fields.join(","),
+                                        adt.is_enum()
+                                    );
+                                }
+                            }
+                        }
+                    }
                     if let ty::FnDef(cd, cargs) = fty.kind() {
                         match Instance::try_resolve(self.tcx, self.env, *cd, cargs) {
                             Ok(Some(ci)) => {
@@ -563,7 +610,7 @@ impl<'tcx> Cx<'tcx> {
                     let aty: Vec<String> = args.iter().map(|x| esc(&self.mono(i, x.node.ty(body, self.tcx)).to_string())).collect();
                     let _ = write!(
                         s,
-                        "{{\"t\":\"call\",\"callee\":{},\"cdef\":{},\"leaf\":{},\"crate\":{},\"closure_call\":{},\"self_adt\":{},\"closures\":[{}],\"args\":[{}],\"argtys\":[{}],\"dest\":{},\"to\":{},\"at\":{},\"func\":{}}}",
+                        "{{\"t\":\"call\",\"callee\":{},\"cdef\":{},\"leaf\":{},\"crate\":{},\"closure_call\":{},\"self_adt\":{},\"closures\":[{}],\"args\":[{}],\"argtys\":[{}],\"dest\":{},\"to\":{},\"at\":{},\"func\":{},\"ctor\":{}}}",
                         callee,
                         esc(&cdef),
                         leaf,
@@ -576,7 +623,8 @@ impl<'tcx> Cx<'tcx> {
                         self.place(i, body, destination),
                         target.map(|t| t.as_usize() as i64).unwrap_or(-1),
                         at,
-                        funcop
+                        funcop,
+                        ctor
                     );
                 }
                 other => {
